@@ -22,6 +22,27 @@ def run(ctx):
                                                        nops=(4, 35) if quick else (10, 100), recipe_cfgs=4 if quick else 30),
                         oracle, max_shrink=6)
     codecleaf.hybrid_fixpoint(ctx)
+    # the same fixpoint with the process in time zones west and east of Greenwich and with fractional-hour offsets (recorded
+    # offsets of either sign must survive open + write)
+    import os
+    import time
+    old_tz = os.environ.get('TZ')
+    try:
+        for tz in (['America/New_York', 'Asia/Kolkata'] if quick else ['America/New_York', 'Asia/Kolkata', 'Pacific/Chatham', 'America/St_Johns',
+                                                                          'Pacific/Kiritimati', 'Etc/GMT+12']):
+            os.environ['TZ'] = tz
+            time.tzset()
+            hist = [(label + '@' + tz, cfg, ops, sizes) for (label, cfg, ops, sizes) in
+                    sysprops.histories(ctx, 10 if quick else 60, ['long_symlinks'], dict(allow_refusals=False, long_rr=0.1), nops=(4, 15),
+                                       recipe_cfgs=1)]
+            sysprops.run_oracle(ctx, 'C05', iter(hist), oracle, max_shrink=2)
+            ctx.count('fixpoint-in-zone:' + tz, len(hist))
+    finally:
+        if old_tz is None:
+            os.environ.pop('TZ', None)
+        else:
+            os.environ['TZ'] = old_tz
+        time.tzset()
     vdleaf.flush_vd(ctx)
     vdleaf.VDS.clear()
     ctx.cov['rule'] = ('every image of the random histories and recipes (all configurations incl. XA, Rock Ridge 1.09/1.10/1.12, '
